@@ -1174,7 +1174,7 @@ Proof.
         pose proof (cn_pid _ _ I) as Hp. rewrite <- absn_len in Hp. unfold len_N in Hp. lia.
       * apply (par_ok_ext (c_doc c)); [|exact Hpar]. eapply NsExt_trans; [exact Hext|apply NsExt_same; reflexivity].
     + apply (cn_uniq _ _ I).
-    + cbn. constructor; [|constructor]. rewrite Ln. lia.
+    + unfold kind. cbn. constructor; [|constructor]. rewrite Ln. lia.
     + cbn. lia.
   - eexists. exists kind, new. split; [reflexivity|].
     match goal with |- Step0n c ?c' _ _ /\ _ => assert (S : Step0n c c' [(Some (c_parent_id c), kind)] new) end.
